@@ -20,10 +20,10 @@ func univFor(kind string) univ {
 		u.buckets = []string{singleBucketName, "bkb"}
 	}
 	if kind == "mem" || kind == "bolt" || kind == "boltbin" {
-		u.keys = []string{"a", "a/b", "a/c", "d"}
+		u.keys = []string{"a", "a/b", "a/c", "d", "a_b"}
 	} else {
 		// fs backends: conflict-free key domain (no key is a path-prefix of another)
-		u.keys = []string{"a/b", "a/c", "d", "e/f/g"}
+		u.keys = []string{"a/b", "a/c", "d", "e/f/g", "a_b"} // a_b: distinct from a/b however a backend flattens names
 	}
 	return u
 }
